@@ -41,18 +41,6 @@ impl Bytes {
     #[verifier::external_body]
     pub fn copy_to_bytes(&mut self, n: usize) -> (r: Bytes) requires n <= old(self)@.len() ensures r@ == old(self)@.take(n as int), final(self)@ == old(self)@.skip(n as int) { unimplemented!() }
 }
-impl BytesMut {
-    // A-bytes-26: BytesMut::with_capacity is empty; put_u8 / put_u32 (big-endian) / put_slice append
-    #[verifier::external_body]
-    pub fn with_capacity(n: usize) -> (r: BytesMut) ensures r@ == Seq::<u8>::empty(), r.reserve_bound@ < 0 { unimplemented!() }
-    #[verifier::external_body]
-    pub fn put_u8(&mut self, v: u8) ensures final(self)@ == old(self)@.push(v), final(self).reserve_bound == old(self).reserve_bound { unimplemented!() }
-    #[verifier::external_body]
-    pub fn put_u32(&mut self, v: u32) ensures final(self)@ == old(self)@ + be32(v as int), final(self).reserve_bound == old(self).reserve_bound { unimplemented!() }
-    #[verifier::external_body]
-    pub fn put_slice(&mut self, s: &[u8]) ensures final(self)@ == old(self)@ + s@, final(self).reserve_bound == old(self).reserve_bound { unimplemented!() }
-}
-impl HasBytes for BytesMut { open spec fn bytes_view(&self) -> Seq<u8> { self@ } }
 // the HTTP/1 header block of a trailers map (PROTOCOL-WEB.md): one `name:value\r\n` row per entry, in iteration order
 pub open spec fn trailer_row(e: (Seq<char>, Seq<u8>)) -> Seq<u8> { ascii_bytes(e.0) + seq![58u8] + e.1 + seq![13u8, 10u8] }
 pub open spec fn block_of(s: Seq<(Seq<char>, Seq<u8>)>) -> Seq<u8> decreases s.len() {
